@@ -6,43 +6,45 @@
 set -eu
 ROOT=$(cd "$(dirname "$0")/.." && pwd)
 cd "$ROOT"
-LIBC=$(tools/build_lib.sh c-san)
-LIBX=$(tools/build_lib.sh cxx-san)
-mkdir -p build/obj build/bin
+# HARNESS_VARIANT=plain: no sanitizer anywhere (the binary runs under valgrind); objects and binary get their own names
+HV=${HARNESS_VARIANT:-san}
+if [ "$HV" = plain ]; then LIBC=$(tools/build_lib.sh c-plain); LIBX=$(tools/build_lib.sh cxx-plain); SANFL="-gdwarf-4"; OD=build/obj-plain
+else LIBC=$(tools/build_lib.sh c-san); LIBX=$(tools/build_lib.sh cxx-san); SANFL="-fsanitize=address,undefined -fno-sanitize-recover=undefined"; OD=build/obj; fi
+mkdir -p $OD build/bin
 REPO=${REPO:-/repo}
-HDRKEY=$(cat src/*.hpp "$LIBC/yaep.h" "$REPO"/src/allocate.h "$REPO"/src/hashtab.h "$REPO"/src/objstack.h "$REPO"/src/vlobject.h tools/build_harness.sh | sha256sum | cut -c1-12)
-CXX="clang++ -std=gnu++17 -O1 -g -fsanitize=address,undefined -fno-sanitize-recover=undefined -fno-omit-frame-pointer -Wall -Wno-unused-function -Wno-sign-compare -I$LIBC -Isrc -I$REPO/src"
-CC="clang -O1 -g -fsanitize=address,undefined -fno-sanitize=pointer-overflow -fno-sanitize-recover=undefined -fno-omit-frame-pointer -w -I$REPO/src"
+HDRKEY=$( (echo "$HV"; cat src/*.hpp "$LIBC/yaep.h" "$REPO"/src/allocate.h "$REPO"/src/hashtab.h "$REPO"/src/objstack.h "$REPO"/src/vlobject.h tools/build_harness.sh) | sha256sum | cut -c1-12)
+CXX="clang++ -std=gnu++17 -O1 -g $SANFL -fno-omit-frame-pointer -Wall -Wno-unused-function -Wno-sign-compare -I$LIBC -Isrc -I$REPO/src"
+CC="clang -O1 -g $SANFL ${SANFL:+-fno-sanitize=pointer-overflow} -fno-omit-frame-pointer -w -I$REPO/src"
 pids=""
 objs=""
 for f in src/*.cpp; do
   b=$(basename "$f" .cpp)
   k=$( (cat "$f"; echo "$HDRKEY") | sha256sum | cut -c1-12)
-  o="build/obj/$b-$k.o"
+  o="$OD/$b-$k.o"
   objs="$objs $o"
   if [ ! -f "$o" ]; then
-    rm -f build/obj/$b-*.o
-    ( $CXX -c "$f" -o "$o.tmp" 2>"build/obj/$b.log" && mv "$o.tmp" "$o" ) & pids="$pids $!"
+    rm -f $OD/$b-*.o
+    ( $CXX -c "$f" -o "$o.tmp" 2>"$OD/$b.log" && mv "$o.tmp" "$o" ) & pids="$pids $!"
   fi
 done
 for f in src/*.c; do
   b=$(basename "$f" .c)
   k=$( (cat "$f"; echo "$HDRKEY") | sha256sum | cut -c1-12)
-  o="build/obj/$b-$k.o"
+  o="$OD/$b-$k.o"
   objs="$objs $o"
   if [ ! -f "$o" ]; then
-    rm -f build/obj/$b-*.o
-    ( $CC -c "$f" -o "$o.tmp" 2>"build/obj/$b.log" && mv "$o.tmp" "$o" ) & pids="$pids $!"
+    rm -f $OD/$b-*.o
+    ( $CC -c "$f" -o "$o.tmp" 2>"$OD/$b.log" && mv "$o.tmp" "$o" ) & pids="$pids $!"
   fi
 done
 fail=0
 for p in $pids; do wait $p || fail=1; done
-if [ $fail = 1 ]; then cat build/obj/*.log >&2; exit 2; fi
+if [ $fail = 1 ]; then cat $OD/*.log >&2; exit 2; fi
 LK=$( (echo "$objs $LIBC $LIBX") | sha256sum | cut -c1-12)
 if [ ! -f "build/bin/pbt-$LK" ]; then
   find build/bin -name "pbt-*" -mmin +30 -delete 2>/dev/null || true
-  clang++ -fsanitize=address,undefined -o "build/bin/pbt-$LK" $objs "$LIBC/yaepc.o" "$LIBX/yaepxx.o" -lrapidcheck 2>build/obj/link.log || { cat build/obj/link.log >&2; exit 2; }
+  clang++ $SANFL -o "build/bin/pbt-$LK" $objs "$LIBC/yaepc.o" "$LIBX/yaepxx.o" -lrapidcheck 2>$OD/link.log || { cat $OD/link.log >&2; exit 2; }
 fi
-NAME=${PBT_NAME:-pbt}
+NAME=${PBT_NAME:-pbt}; [ "$HV" = plain ] && [ -z "${PBT_NAME:-}" ] && NAME=pbt-plain
 ln -sf "pbt-$LK" build/bin/$NAME
 echo "$ROOT/build/bin/$NAME"
